@@ -176,11 +176,16 @@ def check(ctx, rep):
     if th is not None:
         wr = prog.resolve_method(th, "write")
         problems = []
-        ctor = [n for n in ast.walk(wr.node) if isinstance(n, ast.Call) and (dotted(n.func) or "").endswith("Context")] if wr else []
+        from ..structure import bind_params, helper_calls
+
+        # the context may be built in write() or in a helper it calls (method or module-level function)
+        scopes = [(wr, {})] + [(g, b) for g, _, caller, b in helper_calls(prog, ctx.resolver, wr, th, depth=2)] if wr else []
+        ctor = [(n, b) for fn, b in scopes for n in ast.walk(fn.node) if isinstance(n, ast.Call) and (dotted(n.func) or "").endswith("Context")]
         if not ctor:
             problems.append("the handler does not build a TALES context")
-        for c in ctor:
+        for c, b in ctor:
             v = next((k.value for k in c.keywords if k.arg == "allowPythonPath"), c.args[1] if len(c.args) > 1 else None)
+            v = bind_params(v, b) if v is not None else None
             if v is None or norm(v) != "self.allowpythonpath":
                 problems.append(f"the context is created with allowPythonPath={norm(v) if v is not None else 'default'} instead of the configured option")
         cfg_ok = False
@@ -239,12 +244,25 @@ def check(ctx, rep):
                 except Exception:
                     problems.append("could not enumerate paths")
                 rep.add("R18c", f"{m.qualname}: push sets its flag", not problems, ctx.where(m), "; ".join(sorted(set(problems))), key=f"R18c|{m.qualname}|push")
+            # pops in a helper method are judged where a command handler calls it (with the helper walked as part of the handler)
+            from ..structure import helper_calls
+
+            called_by_handler = {g for hm in C.methods.values() if hm.name.startswith("cmd") for g, _, _, _ in helper_calls(prog, ctx.resolver, hm, C, depth=2)}
+            if pops and m in called_by_handler and not m.name.startswith("cmd"):
+                pops = []
+            if m.name.startswith("cmd"):
+                for g, _, _, _ in helper_calls(prog, ctx.resolver, m, C, depth=2):
+                    if g.cls is not None and g.cls.module is m.module and not g.name.startswith("cmd"):
+                        pops = pops + [n for n in ast.walk(g.node) if isinstance(n, ast.Call) and isinstance(n.func, ast.Attribute)
+                                       and n.func.attr in ("popLocals", "removeRepeat") and norm(n.func.value) == "self.context"]
             if pops:
                 assume = {"self.localVarsDefined": Const(0), "self.repeatVariable is not None": Const(False), "self.repeatVariable is None": Const(True),
                           "self.repeatVariable": Const(None)}
                 from ..facts import reachable_nodes
 
-                reached = reachable_nodes(prog, ctx.resolver, m, C, {id(x) for x in pops}, assume)
+                reached = reachable_nodes(prog, ctx.resolver, m, C, {id(x) for x in pops}, assume,
+                                          inline=lambda fn, t, d: d < 3 and t.bound_cls is not None and fn.cls is not None and fn.cls.module is m.module
+                                          and not fn.name.startswith("cmd") and any(any(x is pn for x in ast.walk(fn.node)) for pn in pops))
                 bad = ["?"] if reached is None else [norm(x) for x in pops if id(x) in reached]
                 rep.add("R18c", f"{m.qualname}: pops only under their flag", not bad, ctx.where(m),
                         f"{sorted(set(bad))} can run although no locals were pushed for this element: the caller's variables are popped away" if bad else "",
